@@ -16,11 +16,14 @@ structure DcepOpen where
   protocol    : Bytes
 deriving DecidableEq, Repr, Inhabited
 
-def be16 (x : UInt16) : Bytes := [(x >>> 8).toUInt8, x.toUInt8]
-def be32 (x : UInt32) : Bytes := [(x >>> 24).toUInt8, (x >>> 16).toUInt8, (x >>> 8).toUInt8, x.toUInt8]
-def rd16 (a b : UInt8) : UInt16 := (a.toUInt16 <<< 8) ||| b.toUInt16
+/-! big-endian codecs, written with `Nat` arithmetic (same functions as the shift/or forms) -/
+def be16 (x : UInt16) : Bytes := [UInt8.ofNat (x.toNat / 256), UInt8.ofNat (x.toNat % 256)]
+def be32 (x : UInt32) : Bytes :=
+  [UInt8.ofNat (x.toNat / 16777216), UInt8.ofNat (x.toNat / 65536 % 256), UInt8.ofNat (x.toNat / 256 % 256),
+   UInt8.ofNat (x.toNat % 256)]
+def rd16 (a b : UInt8) : UInt16 := UInt16.ofNat (a.toNat * 256 + b.toNat)
 def rd32 (a b c d : UInt8) : UInt32 :=
-  (a.toUInt32 <<< 24) ||| (b.toUInt32 <<< 16) ||| (c.toUInt32 <<< 8) ||| d.toUInt32
+  UInt32.ofNat (a.toNat * 16777216 + b.toNat * 65536 + c.toNat * 256 + d.toNat)
 
 /-- `DataChannelOpen::marshal` (`label.len() as u16`: lengths are truncated to 16 bits) -/
 def DcepOpen.marshal (o : DcepOpen) : Bytes :=
